@@ -32,7 +32,7 @@ def _die_with_parent():
         ctypes.CDLL("libc.so.6", use_errno=True).prctl(1, signal.SIGKILL)  # PR_SET_PDEATHSIG
     except Exception:
         pass
-KNOWN_FILE = os.path.join(VERIF, "known_findings.txt")
+KNOWN_FILE = os.environ.get("VERIF_KNOWN_FILE", os.path.join(VERIF, "known_findings.txt"))  # (experiments only)
 ASAN_OPTS = "detect_leaks=0:abort_on_error=0:allocator_may_return_null=1:detect_stack_use_after_return=0:handle_segv=1:symbolize=1:quarantine_size_mb=64"
 
 LEVELS = {}  # property -> level, filled from MANIFEST.json
